@@ -3,6 +3,8 @@
 // For every normalisation class that can be constructed without external scanner files
 //   Trivial, FromProjData, FromAttenuationImage, PETFromComponents, a harness-side table class derived from
 //   BinNormalisationWithCalibration (exercises the BinNormalisation default apply/undo), Chained (1-3 members)
+// (genuine defects get their own violation keys, see the "reports-trivial-but-zeroes-bins", "constructor-with-one-null-member"
+// and "default-ray-tracing-projector" keys below; every other failure keeps a generic <class>:<clause> key)
 // the monitor measures e_b := undo(ones)_b and checks
 //   - e_b finite, > 0, bit-identical across repeated calls, symmetry groupings and the whole-ProjData overloads
 //   - e_b == get_bin_efficiency(b) where the class implements it
@@ -34,6 +36,7 @@
 #include "stir/recon_buildblock/ProjMatrixByBinUsingRayTracing.h"
 #include "stir/recon_buildblock/ProjMatrixElemsForOneBin.h"
 #include "stir/recon_buildblock/ForwardProjectorByBinUsingProjMatrixByBin.h"
+#include "stir/recon_buildblock/ForwardProjectorByBinUsingRayTracing.h"
 #include "stir/ML_norm.h"
 #include <sys/wait.h>
 #include <cstring>
@@ -257,6 +260,21 @@ close_rel(double got, double ref, double rel)
   return std::fabs(got - ref) <= rel * std::fabs(ref) + 1e-37;
 }
 
+// key for "is_trivial() but the data changed": the component model zeroes the bins outside its symmetric fan
+// (even number of tangential positions) even when every factor is 1 - kept apart from any other way of failing
+static std::string
+trivial_key(const Nut& nut, const Layout& L, const std::vector<float>& got, const std::vector<float>& x, const char* op)
+{
+  bool only_outside_fan = nut.zero_allowed_outside_fan;
+  for (size_t i = 0; only_outside_fan && i < got.size(); ++i)
+    if (std::memcmp(&got[i], &x[i], sizeof(float)) != 0
+        && !(std::abs(L.bins[i].tangential_pos_num()) > nut.half_fan && (got[i] == 0.F || x[i] == 0.F)))
+      only_outside_fan = false;
+  if (only_outside_fan)
+    return ":reports-trivial-but-zeroes-bins-outside-the-symmetric-fan";
+  return std::string(":reports-trivial-but-") + op + "-changes-data";
+}
+
 // returns e (undo of ones); empty on violation
 static std::vector<float>
 check_norm(Ctx& ctx, const Nut& nut, const Layout& L, const shared_ptr<const ExamInfo>& exam, const std::vector<float>& x)
@@ -371,7 +389,7 @@ check_norm(Ctx& ctx, const Nut& nut, const Layout& L, const shared_ptr<const Exa
         if (norm.is_trivial() && first_bit_diff(v, x) >= 0)
           {
             const long d = first_bit_diff(v, x);
-            ctx.violation(c + ":reports-trivial-but-undo-changes-data", bins(L.bins[d]) + vf::fmt(" x %.9g undo(x) %.9g", x[d], v[d]));
+            ctx.violation(c + trivial_key(nut, L, v, x, "undo"), bins(L.bins[d]) + vf::fmt(" is_trivial() is true, x %.9g undo(x) %.9g", x[d], v[d]));
             return none;
           }
       }
@@ -396,7 +414,7 @@ check_norm(Ctx& ctx, const Nut& nut, const Layout& L, const shared_ptr<const Exa
           const long d = first_bit_diff(a, x);
           if (d >= 0)
             {
-              ctx.violation(c + ":reports-trivial-but-apply-changes-data", bins(L.bins[d]) + vf::fmt(" x %.9g apply(x) %.9g", x[d], a[d]));
+              ctx.violation(c + trivial_key(nut, L, a, x, "apply"), bins(L.bins[d]) + vf::fmt(" is_trivial() is true, x %.9g apply(x) %.9g", x[d], a[d]));
               return none;
             }
         }
@@ -463,6 +481,9 @@ struct World
   Layout L;
   std::vector<SymSptr> plain_groupings; // groupings usable with objects that do not project
   shared_ptr<VoxelsOnCartesianGrid<float>> sym_image; // image used for the PET symmetries (may be null)
+  bool want_default_projector = false; // attenuation_cylinder: use the class's default on-the-fly ray tracing projector
+  float dp_ratio = 1.F;                // ... voxel size ratio (large/small) and half image size chosen with the scanner
+  int dp_half = 11;
 };
 
 static void
@@ -648,7 +669,7 @@ make_components(Ctx& ctx, World& w, vf::Desc& d)
   l.constant = all_ones || (!do_eff && !do_geo && !do_block);
   l.zero_outside_fan = true;
   l.half_fan = std::min(w.pdi->get_max_tangential_pos_num(), -w.pdi->get_min_tangential_pos_num());
-  l.any_zero = do_geo;
+  l.any_zero = false;
   if (l.constant)
     ctx.count("cfg_components_all_one");
   // independent model for the efficiencies-only case: e = eff(ra,a)*eff(rb,b)
@@ -707,33 +728,53 @@ make_atten(Ctx& ctx, World& w, vf::Desc& d, bool physical)
   d.add("class", "FromAttenuationImage");
   shared_ptr<Atten> at(new Atten);
   // image grid: x/y voxel = bin size / zoom, z voxel = ring spacing / 2 (what the library derives from the data geometry)
-  const bool aniso = rng.coin(0.5);
-  float zx = static_cast<float>(rng.uniform(0.8, 3.)), zy = zx;
-  if (aniso)
-    {
-      const float r = static_cast<float>(rng.uniform(1.4, 1.8));
-      if (rng.coin(0.5))
-        zy = zx * r;
-      else
-        zx = zy * r;
-    }
+  const bool dp = physical && w.want_default_projector;
+  const bool aniso = dp ? w.dp_ratio > 1.F : rng.coin(0.5);
+  const float ratio = dp ? w.dp_ratio : (aniso ? static_cast<float>(rng.uniform(1.4, 1.8)) : 1.F); // larger voxel / smaller voxel
+  const bool x_is_large = rng.coin(0.5);
   const float bin = w.scanner->get_default_bin_size();
-  const float vx = bin / zx, vy = bin / zy;
-  const float maxv = std::max(vx, vy);
   const float inner = w.scanner->get_inner_ring_radius();
-  // half sizes: FOV radius = min(hx*vx, hy*vy) kept inside 0.9 * inner ring radius
-  const int min_half = physical ? 11 : 2;
-  int hx = static_cast<int>(std::floor(0.9 * inner / vx)), hy = static_cast<int>(std::floor(0.9 * inner / vy));
-  const int cap = ctx.thorough() ? 24 : 16;
-  hx = std::min(hx, cap);
-  hy = std::min(hy, cap);
-  if (hx < min_half || hy < min_half)
-    throw vf::Skip("image does not fit inside the scanner");
-  if (!physical)
+  float zx, zy;
+  int hx, hy;
+  if (dp)
     {
-      hx = static_cast<int>(rng.range(min_half, hx));
-      hy = rng.coin(0.5) ? hx : static_cast<int>(rng.range(min_half, hy));
+      // on-the-fly ray tracing projector: square index range (it addresses the image with x and y exchanged),
+      // voxels at least as large as the tangential sampling (the scanner was generated accordingly)
+      const float v_small = static_cast<float>(0.9 * inner / w.dp_half * rng.uniform(0.9, 1.));
+      const float v_large = v_small * ratio;
+      zx = bin / (x_is_large ? v_large : v_small);
+      zy = bin / (x_is_large ? v_small : v_large);
+      hx = hy = w.dp_half;
     }
+  else if (physical)
+    {
+      // the cylinder needs >= 9 (large) voxels of radius inside the FOV, the FOV stays inside 0.9 * inner ring radius
+      const int h_large = static_cast<int>(rng.range(11, ctx.thorough() ? 15 : 13));
+      const float v_large = static_cast<float>(0.9 * inner / h_large * rng.uniform(0.75, 1.));
+      const float z_large = bin / v_large, z_small = z_large * ratio;
+      const int h_small = static_cast<int>(std::floor(h_large * ratio));
+      zx = x_is_large ? z_large : z_small;
+      zy = x_is_large ? z_small : z_large;
+      hx = x_is_large ? h_large : h_small;
+      hy = x_is_large ? h_small : h_large;
+    }
+  else
+    {
+      const float z_large = static_cast<float>(rng.uniform(0.8, 3.)), z_small = z_large * ratio;
+      zx = x_is_large ? z_large : z_small;
+      zy = x_is_large ? z_small : z_large;
+      const float vx0 = bin / zx, vy0 = bin / zy;
+      hx = static_cast<int>(std::floor(0.9 * inner / vx0));
+      hy = static_cast<int>(std::floor(0.9 * inner / vy0));
+      const int cap = ctx.thorough() ? 20 : 14;
+      hx = std::min(hx, cap);
+      hy = std::min(hy, cap);
+      if (hx < 2 || hy < 2)
+        throw vf::Skip("image does not fit inside the scanner");
+      hx = static_cast<int>(rng.range(2, hx));
+      hy = rng.coin(0.5) ? std::min(hx, hy) : static_cast<int>(rng.range(2, hy));
+    }
+  const float maxv = std::max(bin / zx, bin / zy);
   // z: default number of planes (+2 for the physical phantom so that every tube of response lies inside the object)
   CartesianCoordinate3D<int> sizes(-1, 2 * hy + 1, 2 * hx + 1);
   {
@@ -778,6 +819,20 @@ make_atten(Ctx& ctx, World& w, vf::Desc& d, bool physical)
         *it = rng.coin(pz) ? 0.F : static_cast<float>(rng.uniform(0., hi));
       d.add("mu_max", hi).add("mu_p_zero", pz);
     }
+  // the projector the class uses when none is given (on-the-fly ray tracing): documented restrictions are an even number
+  // of views and no view offset; it has no matrix rows, so only the physical oracle applies
+  // and x,y voxel sizes at least the tangential sampling (used here on square isotropic grids only)
+  const bool default_projector = physical && w.want_default_projector && w.pdi->get_num_views() % 2 == 0
+                                 && std::fabs(w.pdi->get_phi(Bin(0, 0, 0, 0))) < 1.E-4F
+                                 && w.pdi->get_sampling_in_s(Bin(0, 0, 0, 0)) <= std::min(vs.x(), vs.y()) && hx == hy;
+  d.add("projector", default_projector ? "ForwardProjectorByBinUsingRayTracing" : "ForwardProjectorByBinUsingProjMatrixByBin(RayTracing)");
+  if (default_projector)
+    {
+      ctx.count("cfg_default_ray_tracing_projector");
+      at->fwd.reset(new ForwardProjectorByBinUsingRayTracing);
+    }
+  else
+    {
   at->pm.reset(new ProjMatrixByBinUsingRayTracing);
   const bool s90 = rng.coin(0.6), s180 = rng.coin(0.7), sseg = rng.coin(0.7), ss_ = rng.coin(0.7), sz = rng.coin(0.7);
   at->pm->set_do_symmetry_90degrees_min_phi(s90);
@@ -795,6 +850,7 @@ make_atten(Ctx& ctx, World& w, vf::Desc& d, bool physical)
   d.add("sym90", s90).add("sym180", s180).add("sym_swap_segment", sseg).add("sym_swap_s", ss_).add("sym_shift_z", sz);
   d.add("num_tangential_LORs", at->num_tang_lors).add("cylindrical_FOV", cylfov).add("cache", cache).add("cache_basic_only", basic_only);
   at->fwd.reset(new ForwardProjectorByBinUsingProjMatrixByBin(at->pm));
+    }
   l.norm.reset(new BinNormalisationFromAttenuationImage(at->mu, at->fwd));
   l.fwd = at->fwd;
   const Layout* Lp = &w.L;
@@ -804,10 +860,16 @@ make_atten(Ctx& ctx, World& w, vf::Desc& d, bool physical)
     const float rescale = vs.x() / 10; // documented: cm^-1 -> (x-)pixel units, the projectors work in pixel units
     ProjMatrixElemsForOneBin row;
     long tight = 0, phys = 0, phys_nonzero = 0;
+    bool last_plane_defect_reported = false, view_3n4_defect_reported = false;
+    // validation aid only (planted-bug runs): lets the physical oracle be exercised on its own
+    static const bool skip_tight = getenv("C13_SKIP_TIGHT") != nullptr;
     const double diag = std::sqrt(double(vs.x()) * vs.x() + double(vs.y()) * vs.y());
     for (size_t i = 0; i < e.size(); ++i)
       {
         const Bin& b = Lp->bins[i];
+        const double acf = 1. / static_cast<double>(e[i]);
+        if (at->pm && !skip_tight)
+          {
         at->pm->get_proj_matrix_elems_for_one_bin(row, b);
         double Lsum = 0, A = 0;
         long nel = 0;
@@ -827,7 +889,6 @@ make_atten(Ctx& ctx, World& w, vf::Desc& d, bool physical)
             ++nel;
           }
         const double band = vf::band32(static_cast<double>(nel) + 2, A);
-        const double acf = 1. / static_cast<double>(e[i]);
         const double ref = std::exp(Lsum);
         if (!(std::fabs(acf - ref) <= ref * (std::expm1(band) + 8 * vf::EPS32)))
           {
@@ -837,6 +898,7 @@ make_atten(Ctx& ctx, World& w, vf::Desc& d, bool physical)
             return false;
           }
         ++tight;
+          }
         if (at->cylinder)
           {
             // analytic chord of the centred cylinder; voxelised disc lies between the discs of radius R -/+ diag/2
@@ -854,6 +916,35 @@ make_atten(Ctx& ctx, World& w, vf::Desc& d, bool physical)
             const double slack = std::expm1(vf::band32(2. * (mu.get_x_size() + mu.get_y_size() + mu.get_z_size()), x_hi)) + 8 * vf::EPS32;
             if (!(acf >= std::exp(x_lo) * (1 - slack) && acf <= std::exp(x_hi) * (1 + slack)))
               {
+                // second defect of that projector with its own key: unequal x/y voxel sizes (no 90-degree symmetry), number
+                // of views a multiple of 4: view 3n/4 is never written (factor exactly 1 for a line through the cylinder)
+                const int nv = Lp->pdi->get_num_views();
+                if (!at->pm && std::fabs(vs.x() - vs.y()) > 2.E-3F && nv % 4 == 0 && b.view_num() == 3 * nv / 4 && e[i] == 1.F && L_lo > 0)
+                  {
+                    if (!view_3n4_defect_reported)
+                      ctx.violation("attenuation:default-ray-tracing-projector-leaves-view-3n/4-zero-on-unequal-xy-voxels",
+                                    bins(b)
+                                        + vf::fmt(" s %.6g mm: 1/undo(1) %.9g, analytic chord in [%.6g, %.6g] mm -> factor in [%.9g, %.9g]; "
+                                                  "voxel %g x %g mm, %d views",
+                                                  s, acf, L_lo, L_hi, std::exp(x_lo), std::exp(x_hi), vs.x(), vs.y(), nv));
+                    view_3n4_defect_reported = true;
+                    continue;
+                  }
+                // one defect of the on-the-fly ray tracing projector gets its own key (and does not stop the sweep):
+                // direct sinogram, last axial position, central tangential position (views handled by its "general phi" branch)
+                if (!at->pm && tanth == 0 && b.tangential_pos_num() == 0 && b.axial_pos_num() == Lp->pdi->get_max_axial_pos_num(b.segment_num())
+                    && b.view_num() != 0 && acf < std::exp(x_lo))
+                  {
+                    if (!last_plane_defect_reported)
+                      ctx.violation("attenuation:default-ray-tracing-projector-loses-the-plane-after-the-last-direct-sinogram(tang0)",
+                                    bins(b)
+                                        + vf::fmt(" s %.6g mm: 1/undo(1) %.9g, analytic chord in [%.6g, %.6g] mm -> factor in [%.9g, %.9g]; "
+                                                  "ln ratio %.3f (image has %d planes)",
+                                                  s, acf, L_lo, L_hi, std::exp(x_lo), std::exp(x_hi), std::log(acf) / (0.5 * (x_lo + x_hi)),
+                                                  mu.get_z_size()));
+                    last_plane_defect_reported = true;
+                    continue;
+                  }
                 ctx.violation(
                     "attenuation:factor-outside-analytic-cylinder-bounds(physical)",
                     bins(b)
@@ -866,6 +957,8 @@ make_atten(Ctx& ctx, World& w, vf::Desc& d, bool physical)
               ++phys_nonzero;
           }
       }
+    if (last_plane_defect_reported || view_3n4_defect_reported)
+      return false;
     ctx.count("attenuation_tight_bins", tight);
     if (at->cylinder)
       {
@@ -989,6 +1082,8 @@ run_case(Ctx& ctx)
   so.p_tof = (need_components || need_atten) ? 0. : 0.45;
   so.allow_blocks = !(need_components || need_atten);
   w.ss = vg::gen_scanner(rng, so);
+  if (w.ss.geom != "Cylindrical")
+    w.ss.tof_bins = 0; // Scanner::check_consistency reads max_FOV_radius before it is initialised for TOF block scanners (not C13's subject)
   if (need_components)
     {
       // component model: block structure must divide the rings/detectors; prefer an even number of crystals per block
@@ -1003,19 +1098,48 @@ run_case(Ctx& ctx)
     {
       // room for a cylinder of >= 9 voxels radius: enough tangential bins
       w.ss.ndet = std::max(w.ss.ndet, 24);
+      w.want_default_projector = rng.coin(0.35);
+      if (w.want_default_projector)
+        {
+          // that projector wants voxels at least as large as the tangential sampling: many detectors, no tilt (view offset)
+          w.dp_ratio = rng.coin(0.3) ? static_cast<float>(rng.uniform(1.4, 1.8)) : 1.F;
+          w.dp_half = static_cast<int>(std::ceil(9. * w.dp_ratio + std::sqrt(1. + double(w.dp_ratio) * w.dp_ratio) / 2 + 0.3)) + static_cast<int>(rng.range(0, 2));
+          const int ndet_min = static_cast<int>(std::ceil(3.14159265 * (w.ss.radius + w.ss.doi) * w.dp_half / (0.81 * w.ss.radius)));
+          w.ss.ndet = 2 * ((ndet_min + 1) / 2) + 2 * static_cast<int>(rng.range(1, 4));
+          w.ss.tilt = 0.F;
+          w.ss.nrings = std::min(w.ss.nrings, 3);
+          w.ss.axial_per_block = 1;
+        }
       w.ss.trans_per_block = 1;
       w.ss.bin_size = static_cast<float>(3.14159265 * w.ss.radius / w.ss.ndet * rng.uniform(0.8, 1.1));
     }
-  ctx.desc.add("scanner", w.ss.desc());
   try
     {
       w.scanner = vg::make_scanner(w.ss);
     }
   catch (const std::exception& e)
     {
-      throw vf::Skip(std::string("scanner rejected: ") + e.what());
+      if (w.ss.geom == "Cylindrical")
+        {
+          ctx.desc.add("scanner", w.ss.desc());
+          throw vf::Skip(std::string("scanner rejected: ") + e.what());
+        }
+      // the block layout of the generated scanner is not accepted: use the same numbers on a cylinder
+      w.ss.geom = "Cylindrical";
+      ctx.count("blocks_scanner_rejected_fell_back_to_cylindrical");
+      try
+        {
+          w.scanner = vg::make_scanner(w.ss);
+        }
+      catch (const std::exception& e2)
+        {
+          ctx.desc.add("scanner", w.ss.desc());
+          throw vf::Skip(std::string("scanner rejected: ") + e2.what());
+        }
     }
+  ctx.desc.add("scanner", w.ss.desc());
   vg::PdiOpts po;
+  po.allow_view_mash = w.ss.geom == "Cylindrical";
   po.allow_arccorr = w.ss.geom == "Cylindrical" && !need_components;
   po.allow_ge = !need_components && !need_atten;
   w.ps = vg::gen_pdi(rng, w.ss, po);
@@ -1034,6 +1158,14 @@ run_case(Ctx& ctx)
       w.ps.num_views = w.ss.ndet / 2;
       w.ps.max_delta = static_cast<int>(rng.range(0, w.ss.nrings - 1));
       w.ps.num_tang = std::max(w.ps.num_tang, 3);
+    }
+  if (w.ps.arccorr)
+    {
+      // arc-corrected bins are equidistant in s: keep every line of response inside the detector ring
+      const int maxt = static_cast<int>(std::floor(0.95 * (w.ss.radius + w.ss.doi) / w.ss.bin_size));
+      w.ps.num_tang = std::max(1, std::min(w.ps.num_tang, 2 * maxt + 1));
+      if (need_components)
+        w.ps.arccorr = false;
     }
   if (need_atten && w.ps.span % 2 == 0)
     w.ps.span = 1, w.ps.max_delta = static_cast<int>(rng.range(0, w.ss.nrings - 1));
@@ -1194,7 +1326,9 @@ run_case(Ctx& ctx)
         }
       ctx.desc.add("objects", ds);
       // a chain of one: ChainedBinNormalisation with one member left empty
-      if (chain_len == 1 && rng.coin(0.5))
+      // (not under valgrind: the crashing child would be reported a second time through valgrind's own log)
+      static const bool under_valgrind = getenv("LD_PRELOAD") && std::strstr(getenv("LD_PRELOAD"), "vgpreload");
+      if (chain_len == 1 && rng.coin(0.5) && !under_valgrind)
         {
           const bool null_is_second = rng.coin(0.5);
           ctx.desc.add("chain_of_one", null_is_second ? "second member null" : "first member null");
